@@ -69,8 +69,9 @@ class _EulerBernoulli(_GroupElem):
         """(Ne, 1, 1) direction (+1 or -1) of the elements along the x axis.\n
         A 1D structure has the single unknown ux, which is not rotated in the member's axes: d(ux)/dx = sign * d(ux)/ds.
         """
-        F_e_pg = _GroupElem.Get_F_e_pg(self, MatrixType.beam)
-        return np.sign(np.asarray(F_e_pg)[:, :1, :1, 0])
+        connect = self._global_to_local_nodes[self.connect]
+        x_e = self.coord[connect[:, :2], 0]
+        return np.sign(x_e[:, 1] - x_e[:, 0]).reshape(-1, 1, 1)
 
     # Beams shapes functions
     # Use hermitian shape functions
